@@ -235,6 +235,22 @@ Theorem C03_names_refuted_serialize_named_query :
   names_ok [("DT", DCustom (Some cfgQ))] true [V "d" (TNonNull (TNamed "DT"))] = false.
 Proof. vm_compute. split; reflexivity. Qed.
 
+(* the other two conjuncts of ser_name_ok are needed as well: a serialize function called like a comprehension
+   variable, or called UNSET *)
+Definition cfgI : scalar_cfg :=
+  {| sc_type := "Any"; sc_ser := Some "mod._item0"; sc_parse := None; sc_import := None |}.
+Theorem C03_names_refuted_serialize_named_item :
+  callm [("DT", DCustom (Some cfgI))] true [V "d" (TList (TNamed "DT"))] [("d", PList [PCustom (JStr "a")])] = PyNotCallable /\
+  names_ok [("DT", DCustom (Some cfgI))] true [V "d" (TList (TNamed "DT"))] = false.
+Proof. vm_compute. split; reflexivity. Qed.
+
+(* ... but only where a comprehension is generated: for a non-list variable the same configuration works, so the
+   guard is wider than the defect there (kept: it is a property of the configuration, not of the operation) *)
+Example C03_serialize_named_item_nonlist_works :
+  callm [("DT", DCustom (Some cfgI))] true [V "d" (TNonNull (TNamed "DT"))] [("d", PCustom (JStr "a"))]
+    = Sent [("d", JArr [JStr "_item0"; JStr "a"])].
+Proof. vm_compute. reflexivity. Qed.
+
 (* so the full statement without names_ok is still false: *)
 Theorem C03_delivery_refuted_names : ~ C03_delivery_full.
 Proof.
